@@ -332,6 +332,8 @@ def mutate(rng, proj, kind):
         a = rng.choice(fxs)
         if a["scope"] == "test":
             a["scope"] = rng.choice(["suite", "session"])
+        if a["scope"] in ("suite", "session") and rng.random() < 0.4:
+            a["per_thread"] = True        # a per-thread fixture built on another per-thread fixture is just as wrong
         b = {"name": 610 + rng.randint(0, 3), "scope": rng.choice(["session", "pre_run", "suite"]), "params": [], "per_thread": True}
         fxs.insert(rng.randint(0, len(fxs)), b)
         a["params"].insert(rng.randint(0, len(a["params"])), b["name"])
